@@ -110,6 +110,17 @@ func exec(f []string) string {
 			return r
 		}
 	}
+	if len(f) == 2 && f[0] == "defaultkeys" && strings.HasPrefix(f[1], "U=") {
+		// the classifier of F-C07-classifier = negation of the Lean hypothesis DefaultKeys
+		u, ok := decU(f[1][2:])
+		if !ok {
+			return "bad-op"
+		}
+		if u.nonDefaultKey() {
+			return "ok false"
+		}
+		return "ok true"
+	}
 	u, rn, rv, ok := decLine(f)
 	if !ok {
 		return "bad-op"
